@@ -156,9 +156,24 @@ def run_vecindex(c, cfgs, clause, kinds):
     total = {}
     sample = None
     for cfg in cfgs:
-        states = c.path("vec_%s.ndjson" % cfg)
-        res = c.tlc_must_pass("lachesis", "MC_VecIndex", cfg="MC_VecIndex_" + cfg, edges_out=states, workers=8, timeout=3400)
-        c.log("TLC VecIndex %s: %d distinct states, %d complete DAGs emitted" % (cfg, res.distinct, res.edges))
+        states = c.path("vec_%s.ndjson" % cfg.replace(":", "_"))
+        if cfg.startswith("corpus:"):
+            # complete DAGs emitted earlier by TLC simulation of this model (with the answers TLC computed) and selected by a
+            # structural statistic: kept under specs/lachesis/corpus
+            states = os.path.join(vlib.VERIF, "specs", "lachesis", "corpus", cfg[7:] + ".ndjson")
+        elif cfg.startswith("sim:"):
+            # random behaviours of a scope too large to enumerate (three/four validators, 7-9 events), for a fixed time:
+            # TLC checks the algorithm model against the definitions on each and emits every complete DAG reached
+            name, secs = cfg[4:].split("@")
+            res = c.tlc("lachesis", "MC_VecIndex", cfg="MC_VecIndex_" + name, edges_out=states, workers=4, timeout=int(secs),
+                        simulate="num=100000000", depth=12, ok_timeout=True)
+            if res.invariant_violated or res.errors:
+                raise vlib.Infra("VecIndex.tla: simulation found a disagreement between algorithm model and definition (spec bug): " + vlib.tail(res.out, 20))
+            c.log("TLC VecIndex simulation %s (%ss): %d complete DAGs emitted" % (name, secs, res.edges))
+            total["simulated_dags"] = total.get("simulated_dags", 0) + res.edges
+        else:
+            res = c.tlc_must_pass("lachesis", "MC_VecIndex", cfg="MC_VecIndex_" + cfg, edges_out=states, workers=8, timeout=3400)
+            c.log("TLC VecIndex %s: %d distinct states, %d complete DAGs emitted" % (cfg, res.distinct, res.edges))
         rep = json.loads(c.vh(["vecreplay", states], timeout=3400).stdout)
         for k, v in rep["stats"].items():
             total[k] = total.get(k, 0) + v
